@@ -32,7 +32,7 @@ def run(c):
         "kill instants are sampled, not enumerated; power-loss (torn pages, reordered writes) is not exercised",
         "step mode keeps its scratch database on tmpfs (crash images are taken in-process, nothing there depends on fsync)",
     ]
-    c.prove("SH.Props.C17", extra_files=["SH/Model/Engine.lean"])
+    c.prove("SH.Props.C17", extra_files=["SH/Model/Engine.lean", "SH/Lemmas/Engine.lean", "SH/Lemmas/EngineChain.lean"])
     drv = c.driver(DRIVER)
     binary = c.go_build(HARNESS)
     try:
@@ -69,26 +69,37 @@ META = {
     "technique": ("Lean 4 invariant proof over an executable state-machine model of the engine (induction over all op sequences incl. crash as an op "
                   "with the surviving binlog length as parameter) + op-by-op differential correspondence with the real Engine on a scripted binlog "
                   "+ SIGKILL runs of a child process on a real engine with the real on-disk fsbinlog"),
-    "text": ("Kernel-checked for every sequence of writes (successful / failing), binlog commits, commit-timer ticks, replica Apply/Skip, "
-             "closes, crashes and restarts: the committed database and the open write transaction each equal the application of the binlog "
-             "prefix their stored offset marks; the committed offset never exceeds the fsynced binlog prefix (so readers never see events not "
-             "yet durable in the binlog); a failing write changes nothing; every write acknowledged after its binlog commit has its event "
-             "inside the durable prefix and is present again after any crash + replay; after the reader has re-delivered the durable binlog "
-             "the database holds exactly its events. The model is tied to internal/sqlite by replaying each generated op sequence on a real "
-             "Engine (real SQLite, real savepoints/commits, in-process crash images) and on the compiled model and diffing committed state, "
-             "transaction state, offsets, wait queue and acknowledgements after every op; the property itself is evaluated directly on the "
-             "real engine in both modes (oracle signatures db-not-prefix, db-ahead-of-binlog, tx-not-prefix, acked-not-durable, acked-lost, "
-             "failed-do-left-db-change, failed-do-left-binlog-record, restart-missing-events, view-not-prefix, restart-not-writable, "
-             "restart-failed, restart-failed-torn-tail). Known finding restart-failed-torn-tail (no fix applied): a kill inside a "
-             "large binlog write(2) leaves a partial record at the end of the last file; fsbinlog's writer then refuses to reopen it "
-             "and a master engine does not come up until the file is cut by hand. The model reproduces this (crash with torn=true -> "
-             "open-error, field down; theorem torn_tail_restart_fails is the decide witness), so the restart theorems "
-             "(engine_up_partial, acked_present_after_restart_partial, restart_catches_up_partial) carry the hypothesis noTorn = "
-             "no crash left a partial record after the last complete event; the unapplied patch is kept as stepFixed."),
-    "note": ("Partial: restart is proved only for crashes without a torn binlog tail (with one the current code fails to restart: "
-             "known finding, oracle sig restart-failed-torn-tail; any other restart failure is sig restart-failed and a VIOLATION); SQLite durability/atomic commit, fsync, the Go scheduler and fsbinlog's fsync-before-Commit contract are trusted, not proved; "
-             "kill instants are sampled (quick ~15 kills, thorough ~200). The apply() branch that skips bytes below the stored offset is not "
-             "modelled: the proved invariant tx.off <= dbOffset (also observed on the real engine after every op) makes its guard false. "
-             "Snapshot meta and the ReadAndExit/CommitOnEachWrite/NoBinlog options are not modelled."),
+    "text": ("Kernel-checked for every history (writes ok / failing, must-commit-now writes, binlog commits at any offset, commit-timer ticks, "
+             "reader deliveries, replica appends, close, kills at any moment incl. while a commit is parked, restarts) and for both commit modes "
+             "and both roles: db_is_prefix (committed database and open write transaction each equal the application of the binlog prefix their "
+             "stored offset marks; committed offset <= fsynced prefix), view_never_ahead_of_binlog, failed_do_leaves_nothing, acked_is_durable / "
+             "acked_survives_crash, binlog_contiguous (the model's binlog is laid out back to back and all three offsets are record boundaries), "
+             "restart_catches_up in CLOSED FORM (kill keeping the binlog up to any record boundary d between fsynced offset and written length, "
+             "restart, the reader re-delivers every record, Commit(d), ready: the database holds exactly the events of the durable binlog in "
+             "order, offset row = in-memory offset = d, engine up) with acked_present_after_restart as corollary, "
+             "apply_skip_branch_unreachable (the offset row never exceeds the in-memory offset, so the 'skip already applied bytes' branch of "
+             "binlog_engine.apply is dead under the engine's own invariants), and replica mode as its own instance: replica_db_is_prefix "
+             "(trace level: stays a replica, refuses binlog writes, both prefixes, readers never ahead, events parked only while a commit is "
+             "awaited and parked events in neither database state), replica_apply_is_parked, replica_commit_flushes (Commit covering the engine "
+             "offset COMMITs the pre-queue state then applies the queue in order; a smaller Commit does neither). "
+             "The model is tied to internal/sqlite by replaying each generated op sequence on a real Engine (real SQLite, savepoints, commits, "
+             "in-process crash images) and on the compiled model and diffing committed state, transaction state, offsets, wait queue and "
+             "acknowledgements after every op; the property itself is evaluated directly on the real engine in both modes (oracle signatures "
+             "db-not-prefix, db-ahead-of-binlog, tx-not-prefix, acked-not-durable, acked-lost, failed-do-left-db-change, "
+             "failed-do-left-binlog-record, restart-missing-events, view-not-prefix, restart-not-writable, restart-failed, "
+             "restart-failed-torn-tail). Known finding restart-failed-torn-tail (no fix applied): a kill inside a large binlog write(2) leaves a "
+             "partial record at the end of the last file; fsbinlog's writer then refuses to reopen it and a master engine does not come up until "
+             "the file is cut by hand. The model reproduces this (crash with torn=true -> open-error, field down; theorem "
+             "torn_tail_restart_fails is the decide witness); the unapplied patch is kept as stepFixed."),
+    "note": ("Partial: restart is proved for kills that leave no partial record after the last complete one (crash op with torn=false, d a record "
+             "boundary); with a torn tail the current code fails to restart (known finding, oracle sig restart-failed-torn-tail; any other "
+             "restart failure is sig restart-failed and a VIOLATION), hence engine_up_partial / acked_present_after_restart_partial / "
+             "restart_catches_up_partial (arbitrary delivery chunking, conditional on 'reader delivered everything') carry noTorn. The closed "
+             "form uses the canonical one-record-per-call replay; other chunkings are covered by the conditional theorem and by the "
+             "correspondence. Contiguity of record offsets is proved for the model's writer; that the real fsbinlog lays files out that way is "
+             "its contract (C18) and is only observed here. SQLite durability/atomic commit, fsync, the Go scheduler and fsbinlog's "
+             "fsync-before-Commit are trusted; kill instants are sampled (quick ~15 kills, thorough ~200). The skip branch of apply() is not in "
+             "the model because apply_skip_branch_unreachable shows its guard false (tx.off <= dbOffset is also observed on the real engine "
+             "after every op). Snapshot meta and the ReadAndExit/CommitOnEachWrite/NoBinlog options are not modelled."),
     "design_ref": "DESIGN.md §6 C17",
 }
